@@ -498,6 +498,46 @@ func W6Special(sink Sink) {
 		emit("0." + strings.Repeat("0", nd*20) + "1e" + strconv.Itoa(nd*20))
 		emit("1" + strings.Repeat("0", nd*20) + "e-" + strconv.Itoa(nd*20))
 	}
+	// exact expansions of special floats (and of the midpoints around them) truncated at EVERY
+	// length, +-1 in the last place: the slow path's shift tables compare digit prefixes with
+	// powers of five, so a wrong table digit only shows for literals that agree with such an
+	// expansion for 30+ digits (seeded change C04r3-m1: a transposed digit pair in one row)
+	specials := []float64{math.SmallestNonzeroFloat64, 2 * math.SmallestNonzeroFloat64, 3 * math.SmallestNonzeroFloat64,
+		math.Float64frombits(0x000fffffffffffff), math.Float64frombits(0x0010000000000000), math.Float64frombits(0x0010000000000001),
+		math.Ldexp(1, -1073), math.Ldexp(1, -1000), math.Ldexp(1, -60), math.Ldexp(1, -53), 1.0, math.Ldexp(1, 53), math.Ldexp(1, 60), math.Ldexp(1, 1023)}
+	for _, f := range specials {
+		for variant := 0; variant < 3; variant++ {
+			var d string
+			var x int
+			switch variant {
+			case 0:
+				d, x = exactDecimal(f)
+			case 1:
+				d, x = midpoint(f)
+			default:
+				g := math.Nextafter(f, 0)
+				if g == 0 {
+					d, x = scale2(big.NewInt(1), -1075)
+				} else {
+					d, x = midpoint(g)
+				}
+			}
+			step := 1
+			for L := 1; L <= len(d); L += step {
+				t := d[:L]
+				tx := x + len(d) - L
+				emit(t + "e" + strconv.Itoa(tx))
+				emit(incDigits(t) + "e" + strconv.Itoa(tx))
+				if t != "0" && L%3 == 0 {
+					emit(decDigits(t) + "e" + strconv.Itoa(tx))
+				}
+				if L > 60 {
+					step = 7
+				}
+			}
+			emit(d + "e" + strconv.Itoa(x))
+		}
+	}
 	// classic hard cases
 	for _, s := range []string{"2.2250738585072011e-308", "2.2250738585072012e-308", "2.2250738585072014e-308", "4.9406564584124654e-324", "2.4703282292062327e-324", "2.4703282292062328e-324",
 		"1.7976931348623157e308", "1.7976931348623158e308", "1.7976931348623159e308", "1.797693134862315807e308", "1.797693134862315808e308", "9007199254740993", "9007199254740992.5", "9007199254740993.0000000001",
